@@ -154,7 +154,7 @@ fn components(cnf: &Cnf) -> Vec<Cnf> {
 struct Compiler<'a> {
     opts: &'a Opts,
     nodes: Vec<DNode>,
-    memo: HashMap<Cnf, usize>,
+    memo: HashMap<Cnf, Option<usize>>,
     t: Option<usize>,
     f: Option<usize>,
 }
@@ -180,9 +180,11 @@ impl<'a> Compiler<'a> {
         self.f = Some(self.nodes.len() - 1);
         self.nodes.len() - 1
     }
-    fn compile(&mut self, cnf: &Cnf) -> usize {
+    /// None = the formula is unsatisfiable (d4 never emits a node for an unsatisfiable residue:
+    /// the caller turns it into an edge to the false node or omits the edge)
+    fn compile(&mut self, cnf: &Cnf) -> Option<usize> {
         if cnf.is_empty() {
-            return self.tnode();
+            return Some(self.tnode());
         }
         if self.opts.share {
             if let Some(&id) = self.memo.get(cnf) {
@@ -195,13 +197,16 @@ impl<'a> Compiler<'a> {
         }
         id
     }
-    fn compile_inner(&mut self, cnf: &Cnf) -> usize {
+    fn compile_inner(&mut self, cnf: &Cnf) -> Option<usize> {
         if self.opts.decomp {
             let comps = components(cnf);
             if comps.len() > 1 {
-                let kids: Vec<usize> = comps.iter().map(|c| self.compile(c)).collect();
+                let mut kids: Vec<usize> = Vec::new();
+                for c in comps.iter() {
+                    kids.push(self.compile(c)?);
+                }
                 self.nodes.push(DNode::And(kids));
-                return self.nodes.len() - 1;
+                return Some(self.nodes.len() - 1);
             }
         }
         // decision variable: first in the order that occurs
@@ -213,24 +218,32 @@ impl<'a> Compiler<'a> {
             .expect("variable order must cover the formula") as i32;
         let pols = if self.opts.neg_first { [-x, x] } else { [x, -x] };
         let mut edges = Vec::new();
+        let mut live = 0;
         for lit in pols {
-            match propagate(cnf, &[lit]) {
+            let sub = match propagate(cnf, &[lit]) {
+                None => None,
+                Some((rest, implied)) => self.compile(&rest).map(|child| (implied, child)),
+            };
+            match sub {
                 None => {
                     if self.opts.keep_false {
                         let f = self.fnode();
                         edges.push((vec![lit], f));
                     }
                 }
-                Some((rest, implied)) => {
-                    let child = self.compile(&rest);
+                Some((implied, child)) => {
                     let mut lits = vec![lit];
                     lits.extend(implied);
                     edges.push((lits, child));
+                    live += 1;
                 }
             }
         }
+        if live == 0 {
+            return None;
+        }
         self.nodes.push(DNode::Or(edges));
-        self.nodes.len() - 1
+        Some(self.nodes.len() - 1)
     }
 }
 
@@ -250,10 +263,10 @@ pub fn compile(cnf: &Cnf, opts: &Opts) -> Option<Dag> {
     // top-level units
     let units: Vec<i32> = cnf.iter().filter(|c| c.len() == 1).map(|c| c[0]).collect();
     let root = if units.is_empty() {
-        c.compile(&cnf)
+        c.compile(&cnf)?
     } else {
         let (rest, implied) = propagate(&cnf, &units[..1])?;
-        let child = c.compile(&rest);
+        let child = c.compile(&rest)?;
         let mut lits = vec![units[0]];
         lits.extend(implied);
         c.nodes.push(DNode::Or(vec![(lits, child)]));
